@@ -433,7 +433,7 @@ func (p *parser) method(recv SVal, name string, as []SVal) SVal {
 	return SVal{x.Invoke(name, all...), nil}
 }
 
-var rawFns = map[string]bool{"addr": true, "idx": true, "lookup": true, "slice": true, "apply": true, "tuple": true, "deref": true,
+var rawFns = map[string]bool{"ref": true, "addr": true, "idx": true, "lookup": true, "slice": true, "apply": true, "tuple": true, "deref": true,
 	"toint": true, "idiv": true, "imod": true, "shl": true, "shr": true, "and": true, "or": true, "andnot": true,
 	"range": true, "lookupok": true}
 
